@@ -5,7 +5,7 @@
      tokens:  [ names ]
      req:     [ ep key has_filename sigtype_ok digest_ok flags_ok peer peer_trusted [[hop trusted]...] [[fp ca]...] [[fp ca]...] ]
    output: [ kind a b [listing]  ip proxied ]   kind 0 = status a ; 1 = touch token a key b ; 2 = listing *)
-From Relic Require Import Base.Prelude Base.Val Generated.C04_gen C04.Model.
+From Relic Require Import Base.Prelude Base.Val Generated.C04_gen C04.Model C04.History.
 
 Definition vkey (v : val) : Z * keyconf :=
   (vz (vnth 0 v), mkK (vz (vnth 1 v)) (vz (vnth 2 v)) (map vz (vl (vnth 3 v))) (vbool (vnth 4 v))).
@@ -17,7 +17,7 @@ Definition vreq (v : val) : request :=
         (vz (vnth 6 v)) (vbool (vnth 7 v)) (map (fun h => (vz (vnth 0 h), vbool (vnth 1 h))) (vl (vnth 8 v)))
         (map vcert (vl (vnth 9 v))) (map vcert (vl (vnth 10 v))).
 
-Definition run (v : val) : val :=
+Definition run_single (v : val) : val :=
   let cf := mkCfg (map vkey (vl (vnth 0 v))) (map vclient (vl (vnth 1 v))) (map vz (vl (vnth 2 v))) in
   let rq := vreq (vnth 3 v) in
   let '(ip, proxied) := fst (identity cf rq) in
@@ -25,4 +25,41 @@ Definition run (v : val) : val :=
   | Status c => VL [VZ 0; VZ c; VZ 0; VL []; VZ ip; of_bool proxied]
   | Touch t k => VL [VZ 1; VZ t; VZ k; VL []; VZ ip; of_bool proxied]
   | Listing l => VL [VZ 2; VZ 0; VZ 0; VZs l; VZ ip; of_bool proxied]
+  end.
+
+(* histories on one long-lived server:
+   input: [ 1 keys xclients tokens [hreq ...] ]
+     xclients: [ [mapkey [roots] [roles] nick] ... ]
+     hreq:     [ ep key has_filename sigtype_ok digest_ok flags_ok peer peer_trusted [[hop trusted]...] now [xcert...] [xcert...] ]   (TLS chain, header chain)
+     xcert:    [ id key subject signer notbefore notafter [eku] ca ]
+   output: [ [kind a b [listing] ip proxied authenticated [roles] nick dn] ... ]  one entry per request, in order *)
+Definition vxcert (v : val) : xcert :=
+  mkX (vz (vnth 0 v)) (vz (vnth 1 v)) (vz (vnth 2 v)) (vz (vnth 3 v)) (vz (vnth 4 v)) (vz (vnth 5 v)) (map vz (vl (vnth 6 v))) (vbool (vnth 7 v)).
+Definition vxclient (v : val) : xclient :=
+  mkXC (vz (vnth 0 v)) (map vz (vl (vnth 1 v))) (map vz (vl (vnth 2 v))) (vz (vnth 3 v)).
+Definition vhreq (v : val) : hreq :=
+  mkHR (mkReq (vep (vz (vnth 0 v))) (vz (vnth 1 v)) (vbool (vnth 2 v)) (vbool (vnth 3 v)) (vbool (vnth 4 v)) (vbool (vnth 5 v))
+              (vz (vnth 6 v)) (vbool (vnth 7 v)) (map (fun h => (vz (vnth 0 h), vbool (vnth 1 h))) (vl (vnth 8 v))) [] [])
+       (vz (vnth 9 v)) (map vxcert (vl (vnth 10 v))) (map vxcert (vl (vnth 11 v))).
+Definition out_val (rq : hreq) (o : outcome * result ident) : val :=
+  let b := h_base rq in
+  let '(ip, proxied) := real_ip (rq_peer b) (rq_peer_trusted b) (rq_hops b) in
+  let idv := match snd o with
+             | Ok i => [VZ 1; VZs (id_roles i); VZ (id_name i); of_bool (id_dn i)]
+             | _ => [VZ 0; VL []; VZ 0; VZ 0]
+             end in
+  match fst o with
+  | Status c => VL ([VZ 0; VZ c; VZ 0; VL []; VZ ip; of_bool proxied] ++ idv)
+  | Touch t k => VL ([VZ 1; VZ t; VZ k; VL []; VZ ip; of_bool proxied] ++ idv)
+  | Listing l => VL ([VZ 2; VZ 0; VZ 0; VZs l; VZ ip; of_bool proxied] ++ idv)
+  end.
+Definition run_history (v : val) : val :=
+  let cf := mkHC (mkCfg (map vkey (vl (vnth 1 v))) [] (map vz (vl (vnth 3 v)))) (map vxclient (vl (vnth 2 v))) in
+  let rqs := map vhreq (vl (vnth 4 v)) in
+  VL (map (fun p => out_val (fst p) (snd p)) (combine rqs (hrun cf fresh rqs))).
+
+Definition run (v : val) : val :=
+  match vnth 0 v with
+  | VZ _ => run_history v
+  | _ => run_single v
   end.
